@@ -47,6 +47,10 @@ pub const ALL_T: [T; NT] = [T::F0, T::F1, T::B0, T::G, T::C, T::A0, T::FS, T::TH
 pub const PA_ADDR: u64 = ARENA + 0x800_0000;
 /// a synthetic function in a page of its own that is only ever the target of refused installations
 pub const RT_ADDR: u64 = PA_ADDR + 0x10_0000;
+/// a synthetic function whose first bytes straddle two pages of its own (3 bytes on the first, the rest on
+/// the second); only ever the target of refused installations (the second page refuses to become writable)
+pub const RS_BASE: u64 = RT_ADDR + 0x10_0000;
+pub const RS_ADDR: u64 = RS_BASE + 0x1000 - 3;
 pub const PACKED: u64 = ARENA + 0xA00;
 
 /// installation flavours
@@ -287,6 +291,12 @@ impl World {
             arena::write(RT_ADDR + 0x40, &arena::x64_ret_const(0x4000, 16));
         }
         assert!(arena::protect(RT_ADDR, 0x1000, arena::RX));
+        arena::map_fixed(RS_BASE, 0x2000, arena::RW).expect("straddling refusal target pages");
+        unsafe {
+            std::ptr::write_bytes(RS_BASE as *mut u8, 0xCC, 0x2000);
+            arena::write(RS_ADDR, &arena::x64_ret_const(0x4001, 16));
+        }
+        assert!(arena::protect(RS_BASE, 0x2000, arena::RX));
         let a0_addr = {
             let fut = a0(0);
             poll_fn_addr(&fut) as u64
@@ -322,6 +332,7 @@ impl World {
         assert!(arena::protect(ARENA, ARENA_LEN, arena::RX));
         assert!(arena::protect(PA_ADDR, 0x1000, arena::RX));
         assert!(arena::protect(RT_ADDR, 0x1000, arena::RX));
+        assert!(arena::protect(RS_BASE, 0x2000, arena::RX));
         for &t in &[T::G, T::C, T::A0] {
             let a = self.addr[t as usize] & !0xFFF;
             arena::protect(a, 0x2000, arena::RX);
